@@ -264,7 +264,8 @@ fn remove_dividers_from_output(output: &OutputStream, salt: &str) -> OutputStrea
         }
         updated.push(line);
     }
-    updated.join(&b"\n"[..]).into()
+    // (the lines carry their line feed)
+    updated.concat().into()
 }
 
 /// Compiles all shell expressions of a list of [`TestCase`]s into a single bash script
